@@ -23,9 +23,9 @@ import (
 func TestVerifC04(t *testing.T) {
 	vfMain(t, vfCheck{
 		ID: "C04", Level: "fault_enumeration",
-		Rule:        "10 scenarios (N concurrent single calls; concurrent and sequential ReadAt / WriteTo / WriteAt / ReadFrom mid-transfer; callers that keep issuing requests; raw dispatchRequest ledger) x fault kinds {server->client stream EOF at byte n, error at byte n, k-th client->server Write call fails with the connection reset, k-th Write fails one-sided}; quick: every reply-frame boundary +-1 and a seeded 12% of the interior offsets, thorough: every offset 0..T (streams longer than 2500 bytes: every offset of the first 1200 bytes and a seeded stride after) and every write index. A class is (scenario, fault kind, position bucket); non-trivial when calls were in flight at the moment of the fault.",
+		Rule:        "10 scenarios (N concurrent single calls; concurrent and sequential ReadAt / WriteTo / WriteAt / ReadFrom mid-transfer; callers that keep issuing requests; raw dispatchRequest ledger) x fault kinds {server->client stream EOF at byte n, error at byte n (a transport error, and io.ErrClosedPipe), k-th client->server Write call fails with the connection reset, k-th Write fails one-sided}; quick: every reply-frame boundary +-1 and a seeded 12% of the interior offsets, thorough: every offset 0..T (streams longer than 2500 bytes: every offset of the first 1200 bytes and a seeded stride after) and every write index. A class is (scenario, fault kind, position bucket); non-trivial when calls were in flight at the moment of the fault.",
 		Assumptions: []string{"'bounded time' is decided as 'no stuck state' (every goroutine parked with nothing able to wake it), not as a latency bound", "the peer is scripted, so which replies were completely delivered before byte n is known exactly", "race detector on"},
-		Units:       func(tier vfTier, seed uint64) int { return 11 * 7 },
+		Units:       func(tier vfTier, seed uint64) int { return 11 * 8 },
 		Shards: func(tier vfTier) int {
 			if tier == vfThorough {
 				return 15
@@ -272,6 +272,9 @@ func c04RunOnce(u *vfUnit, sc c04Scenario, fault *c04Fault, hookSeed uint64) c04
 			ctl.CutAfter(vfS2C, handshake+fault.pos, nil, onCut)
 		case "s2c-error":
 			ctl.CutAfter(vfS2C, handshake+fault.pos, errVfCut, onCut)
+		case "s2c-closed-pipe":
+			// the read fails the way an io.Pipe / net.Pipe does when it is closed on the reader's side
+			ctl.CutAfter(vfS2C, handshake+fault.pos, io.ErrClosedPipe, onCut)
 		case "s2c-eof-writer-survives":
 			// the reply stream ends, but the transport's write half keeps accepting writes even after Close
 			ce.NoClose = true
@@ -394,7 +397,7 @@ func c04Run(u *vfUnit) {
 	r := u.Rng
 	scs := c04Scenarios()
 	sc := scs[u.Index%len(scs)]
-	kind := []string{"s2c-eof", "s2c-error", "c2s-reset", "c2s-writefail", "c2s-reset-ioEOF", "c2s-writefail-ioEOF", "s2c-eof-writer-survives"}[(u.Index/len(scs))%7]
+	kind := []string{"s2c-eof", "s2c-error", "c2s-reset", "c2s-writefail", "c2s-reset-ioEOF", "c2s-writefail-ioEOF", "s2c-eof-writer-survives", "s2c-closed-pipe"}[(u.Index/len(scs))%8]
 	u.SetAdd("scenarios", sc.name)
 	dry := c04RunOnce(u, sc, nil, r.Uint64())
 	label0 := sc.name + "/no-fault"
